@@ -677,8 +677,9 @@ class ArrNormDomain(NormDomain):
             if len(ii) == v.ndim:
                 return v.get(*ii)
             if right:
-                # batch dims in front are not modelled for concrete arrays
-                return Unknown('partial right-aligned index')
+                lead = v.shape[:v.ndim - len(ii)]
+                import itertools
+                return Arr(lead, [v.get(*(tuple(pre) + tuple(ii))) for pre in itertools.product(*[range(d) for d in lead])])
             sub_shape = v.shape[len(ii):]
             off = v.offset(tuple(ii) + (0,) * len(sub_shape))
             return Arr(sub_shape, v.data[off:off + _size(sub_shape)])
@@ -701,8 +702,8 @@ class ArrNormDomain(NormDomain):
                 # e.g. v[..., 0] = x on a (2,) or (2,1) array: right aligned partial
                 lead = target.shape[:target.ndim - len(ii)]
                 import itertools
-                for pre in itertools.product(*[range(d) for d in lead]):
-                    target.data[target.offset(tuple(pre) + tuple(ii))] = val
+                for k, pre in enumerate(itertools.product(*[range(d) for d in lead])):
+                    target.data[target.offset(tuple(pre) + tuple(ii))] = val.data[k] if (isinstance(val, Arr) and val.shape == lead) else val
                 return True
             sub_shape = target.shape[len(ii):]
             off = target.offset(tuple(ii) + (0,) * len(sub_shape))
